@@ -241,6 +241,7 @@ func runSyncer(prop, tier string, r *rng) {
 	if prop == "C03" {
 		// what the sync loop hands to the store must be what ends up stored (several pending ranges, a busy flush loop)
 		burstCase(prop, []int{15, 40, 41, 42})
+		burstCase(prop, nil) // the tail-above-head scenarios
 		for _, b := range []int{1, 2} {
 			slowStoreDelay, slowStoreBatch = 4*time.Millisecond, b
 			prefixOfRangeCase(prop, 10, 20, 3)
@@ -313,6 +314,11 @@ func runSyncer(prop, tier string, r *rng) {
 // burstCase: heads learned WHILE a sync is running on a slow getter (adjacent ones and ones leaving a gap)
 // must be synced as well once the getter answers.
 func burstCase(prop string, heads []int) {
+	if len(heads) == 0 {
+		tailAboveCase(prop, 10, 30, 50, 51)
+		tailAboveCase(prop, 10, 12, 40, 45)
+		return
+	}
 	ctx := context.Background()
 	run := newSyncRun(10)
 	run.script = []string{"hold"}
@@ -530,6 +536,41 @@ func prefixOfRangeCase(prop string, first, to, more int) {
 	werr := run.s.SyncWait(c)
 	cancel2()
 	emit("%s kind=burst heads=%s => verdicts=%s %s syncwait=%s", prop, strings.Join(hs, ","), strings.Join(verdicts, ","), run.observe(),
+		map[bool]string{true: "ok", false: "timeout"}[werr == nil])
+	_ = run.s.Stop(ctx)
+	c2, cancel3 := context.WithTimeout(ctx, time.Second)
+	_ = run.st.Stop(c2)
+	cancel3()
+}
+
+// tailAboveCase: the node is restarted with SyncFromHeight above its stored head (the same happens after being offline for
+// longer than the pruning window). The first catch-up attempt meets a getter fault; a later head triggers another one.
+// At quiescence the store is one gap-free run Tail..Head ending at the newest head.
+func tailAboveCase(prop string, storeTo, sfh, first, second int) {
+	ctx := context.Background()
+	run := newSyncRun(storeTo)
+	run.s.Params.SyncFromHeight = uint64(sfh)
+	run.script = []string{"err"}
+	sctx, cancel := context.WithTimeout(ctx, 3*time.Second)
+	err := run.s.Start(sctx)
+	cancel()
+	if err != nil {
+		emit("%s kind=tailabove store=%d sfh=%d heads=%d,%d => start=err", prop, storeTo, sfh, first, second)
+		return
+	}
+	v1 := run.gossip("valid", first)
+	for k := 0; k < 500 && run.s.State().Error == ""; k++ {
+		time.Sleep(time.Millisecond)
+	}
+	run.quiesce()
+	mid := run.observe()
+	v2 := run.gossip("valid", second)
+	run.quiesce()
+	c, cancel2 := context.WithTimeout(ctx, time.Second)
+	werr := run.s.SyncWait(c)
+	cancel2()
+	_ = mid
+	emit("%s kind=tailabove store=%d sfh=%d heads=%d,%d => start=ok verdicts=%s,%s %s syncwait=%s", prop, storeTo, sfh, first, second, v1, v2, run.observe(),
 		map[bool]string{true: "ok", false: "timeout"}[werr == nil])
 	_ = run.s.Stop(ctx)
 	c2, cancel3 := context.WithTimeout(ctx, time.Second)
